@@ -74,6 +74,10 @@ STATEMENT_REGEXES = [
 # The implementation, observed
 # ---------------------------------------------------------------------------------------------------------------------
 
+# start lines an embedding application may pass (1-based default, 0-based, offsets into a larger document, negative offsets)
+START_LINES = [1, 0, 0, -1, -2, -3, -7, 2, 3, 57, 10 ** 6, -(10 ** 6)]
+
+
 def P():
     return fw.impl()['parser']
 
@@ -748,6 +752,19 @@ def stream_layout(ctx):
                           'base:' + base[0]] + [f'has:{k}' for k in sorted(kinds)])
             if not same_program(base, res):
                 ctx.witness('layout', {'original': original, 'chunks': chunks, 'as': how}, brief(base), brief(res))
+            # round 5: the caller's start line (0-based hosts, offsets into a bigger document, negative offsets) only positions
+            # diagnostics: identical model, and a reported line number moves by exactly start - 1
+            start = rng.choice(START_LINES)
+            res_s = run_parse(list(chunks), start)
+            st.hist[f'start:{"1" if start == 1 else "0" if start == 0 else "neg" if start < 0 else "pos"}'] = \
+                st.hist.get(f'start:{"1" if start == 1 else "0" if start == 0 else "neg" if start < 0 else "pos"}', 0) + 1
+            bad_start = not same_program(base, res_s)
+            if not bad_start and res_s[0] == 'err':
+                res_1 = run_parse(list(chunks), 1)
+                bad_start = res_1[0] != 'err' or res_s[1:4] != res_1[1:4] or res_s[4] != res_1[4] + start - 1
+            if bad_start:
+                ctx.witness('layout-start-line', {'original': original, 'chunks': chunks, 'start': start}, [brief(base), 'line numbers moved by start - 1'],
+                            brief(res_s))
             # the chunk sequence as ONE STRING (a chunk boundary is a line boundary)
             if len(chunks) > 1 and rng.random() < 0.25:
                 one = rng.choice(['\n', '\r\n']).join(chunks)
@@ -1350,6 +1367,15 @@ def replay(witness):
     if oracle in ('layout', 'layout-keepends'):
         base = run_parse(inp['original'])
         return not same_program(base, run_parse(feed(inp.get('as', 'list'), inp['chunks'])))
+    if oracle == 'layout-start-line':
+        base = run_parse(inp['original'])
+        res_s = run_parse(list(inp['chunks']), inp['start'])
+        if not same_program(base, res_s):
+            return True
+        if res_s[0] == 'err':
+            res_1 = run_parse(list(inp['chunks']), 1)
+            return res_1[0] != 'err' or res_s[1:4] != res_1[1:4] or res_s[4] != res_1[4] + inp['start'] - 1
+        return False
     if oracle == 'input-form':
         return not same_program(run_parse(list(inp['lines'])), run_parse(feed(inp['as'], inp['chunks'])))
     if oracle == 'only-lf-crlf-end-a-line':
